@@ -96,7 +96,7 @@ func (m *recMonitor) OnClosedUncleanly(cause error) (bool, time.Duration) {
 	r, w := m.base.OnClosedUncleanly(cause)
 	if r && m.lc.rc.Tape.Intn("env", 2) == 0 {
 		// the peer stays unreachable for the first attempts of this outage
-		m.lc.openFailsLeft = 1 + m.lc.rc.Tape.Intn("env", 4)
+		m.lc.openFailsLeft = 1 + m.lc.rc.Tape.Intn("env", 6)
 		m.lc.rc.Probe("reopen-attempts-failing")
 	}
 	m.lc.mon = append(m.lc.mon, lcMonEvent{kind: "unclean", step: m.lc.s.Step, at: m.lc.s.Now(), cause: cause, reopen: r, wait: w})
@@ -319,8 +319,9 @@ func lifecycleHarness(rc *RunCtx) {
 	}
 	rc.Sample["fault_points"] = nPoints
 	useMon := tp.Intn("cfg", 5) != 0
-	lc.maxAtt = uint(tp.Intn("cfg", 5))
-	waits := []time.Duration{0, time.Millisecond, 50 * time.Millisecond, time.Second, 2 * time.Second}
+	lc.maxAtt = uint(tp.Intn("cfg", 7))
+	// not only power-of-two multiples of each other: the backoff doubles and is capped
+	waits := []time.Duration{0, time.Millisecond, 3 * time.Millisecond, 4 * time.Millisecond, 7 * time.Millisecond, 50 * time.Millisecond, 70 * time.Millisecond, time.Second, 2 * time.Second}
 	lc.initW = waits[tp.Intn("cfg", len(waits))]
 	lc.maxW = waits[tp.Intn("cfg", len(waits))]
 	if lc.initW > lc.maxW && tp.Intn("cfg", 4) != 0 {
